@@ -18,7 +18,7 @@ LEVEL = "model_checking"
 
 
 def run(ctx):
-    greq, gstats = lp.generated_request(ctx, every=8 if ctx.quick else 3)
+    greq, gstats = lp.generated_request(ctx, every=8 if ctx.quick else 3, big=True)
     gen, overlay, srcs, results = lp.prepare(ctx, extra_requests=[greq])
     # the requests that are meant to generate do generate
     for n in lp.REQUESTS + ["gen"]:
